@@ -23,6 +23,7 @@ var (
 	// response has arrived yet
 	errUnauthenticatedResponse = errors.New("response inside a session was not authenticated")
 	errWrongSessionResponse    = errors.New("response is addressed to a different session")
+	errUnexpectedResponse      = errors.New("response is for a different network function or command")
 
 	// these not only save a map lookup each open, but also register the labels
 	v2ConnectionOpenAttempts = connectionOpenAttempts.WithLabelValues("2.0")
@@ -260,6 +261,12 @@ func (s *V2Sessionless) buildAndSendCommand(ctx context.Context, c ipmi.Command)
 			return err
 		}
 
+		// a duplicated, delayed or unsolicited reply to another command must
+		// not be taken for the response to this one
+		if operation := c.Operation(); s.messageLayer.Function != operation.Function+1 ||
+			s.messageLayer.Command != operation.Command {
+			return errUnexpectedResponse
+		}
 		code := s.messageLayer.CompletionCode
 		// must increment here, otherwise we'll miss temporary codes at the
 		// higher levels
